@@ -13,6 +13,17 @@ AZ = (3.0, 4.0)        # base azimuth (3,4,5 triangle)
 STEPS = (500, 137.0)
 
 
+def to_axis(u):
+    """rotation matrix taking the unit vector u to (0, 0, 1)"""
+    v = np.cross(u, [0.0, 0.0, 1.0])
+    s2 = float(np.dot(v, v))
+    if s2 == 0:
+        return np.eye(3)
+    c = float(u[2])
+    K = np.array([[0, -v[2], v[1]], [v[2], 0, -v[0]], [-v[1], v[0], 0]])
+    return np.eye(3) + K + K @ K * ((1 - c) / s2)
+
+
 def rot(x, y, n):
     for _ in range(n % 4):
         x, y = -y, x
@@ -46,6 +57,13 @@ class EarthDriver:
             cos = 0.0
         d = np.array([sin * dx, sin * dy, cos]) * float(st['k'])
         self.evals += 1
+        if st['axis']:
+            R = self.model.earth_radius
+            e = np.array([x, y, z + R])
+            r0 = float(np.linalg.norm(e))
+            M = to_axis(e / r0)
+            d = M @ d
+            x, y, z = 0.0, 0.0, r0 - R
         return float(self.model.slant_depth((x, y, z), d, step=step))
 
     def reset(self, st):
@@ -57,7 +75,7 @@ class EarthDriver:
         for s, v in zip(STEPS, self.prev):
             if not np.isfinite(v) or v < 0:
                 raise Divergence(self.where(st, s), 'finite and >= 0', v)
-            if last.get('zero') and v != 0:
+            if last.get('zero') and v != 0 and not st['axis']:
                 raise Divergence(self.where(st, s) + ' (chord never enters the Earth)', 0, v)
 
     def where(self, st, step):
